@@ -936,6 +936,27 @@ def rule_bytes(ctx: Ctx) -> RuleReport:
                     rep.ok({"dict_display": f"{m_.rel.split('/')[-1]}:{d.lineno}", "overrides": 0})
     if n_tab < 1:
         raise AnalysisError("C02-BYTES: no dict display with a ** part found (the PPT control-character table was confirmed)")
+    # (i) the meta-charset sniffer does not look inside comments (a commented-out <meta charset> declares nothing)
+    rh2 = ctx.p.func(X + "html_extractor.py", "read_html")
+    sn = [c for c in calls_in(rh2) if isinstance(c.func, ast.Attribute) and c.func.attr == "search" and norm(c.func.value) == "_RE_CHARSET_ATTR_BYTES" and c.args]
+    if len(sn) != 1:
+        raise AnalysisError("C02-BYTES: the meta-charset search of read_html was not found")
+    arg = sn[0].args[0]
+    srcs = [arg]
+    if isinstance(arg, ast.Name):
+        srcs = [a.value for a in walk_own(rh2.node) if isinstance(a, ast.Assign) and any(isinstance(t, ast.Name) and t.id == arg.id for t in a.targets)]
+    stripped = False
+    for v in srcs:
+        for c in ast.walk(v):
+            if isinstance(c, ast.Call) and isinstance(c.func, ast.Attribute) and c.func.attr == "sub" and isinstance(c.func.value, ast.Name):
+                node_ = rh2.module.assigns.get(c.func.value.id)
+                pat_ = ctx.folder.fold(rh2.module, node_.args[0]) if isinstance(node_, ast.Call) and node_.args else None
+                if isinstance(pat_, (bytes, str)) and (b"<!--" in pat_ if isinstance(pat_, bytes) else "<!--" in pat_):
+                    stripped = True
+    if stripped:
+        rep.ok({"meta_charset_sniffer": "comments removed from the sniffed head"})
+    else:
+        rep.fail(Finding("C02-BYTES", X + "html_extractor.py", rh2.qual, "charset sniffed inside comments: " + anorm(sn[0], rh2.node), f"`{short(sn[0], 60)}` searches the raw head of the page: a <meta charset> that is commented out is found as well and the whole document is decoded with it (an ASCII page with '<!-- <meta charset=\"utf-16\"> -->' becomes CJK garbage)", line=sn[0].lineno))
     # (c) plain text: the detector judges the whole input; the text is what the detector decoded; lossy decoding only after it failed
     dd = ctx.p.func(PLAIN, "_detect_and_decode")
     rep.unit(dd.key)
